@@ -142,13 +142,25 @@ def run(ctx):
                            f'every path: original and clone share IR nodes (modifying one changes the other)'))
     sc = m.get_function('loki/sourcefile.py', 'Sourcefile.clone')
     src = ast.unparse(sc.node)
-    ok = X.has(src, 'node.clone(rescope_symbols=True) if isinstance(node, ProgramUnit) else node.clone()') and \
-        X.has(src, 'obj.ir = obj.ir.clone(body=ir_body)') and X.has(src, 'for node in obj.ir.body')
+    objn = (X.names_assigned_from(sc.node, 'type(self)(') or ['obj'])[0]
+    comps = [c for c in ast.walk(sc.node) if isinstance(c, (ast.GeneratorExp, ast.ListComp)) and len(c.generators) == 1
+             and ast.unparse(c.generators[0].iter) == f'{objn}.ir.body' and isinstance(c.generators[0].target, ast.Name)]
+    ok = False
+    for c in comps:
+        v = c.generators[0].target.id
+        if ast.unparse(c.elt) == f'{v}.clone(rescope_symbols=True) if isinstance({v}, ProgramUnit) else {v}.clone()' and not c.generators[0].ifs:
+            ok = True
+    irb = X.names_assigned_from(sc.node, f'{objn}.ir.body')
+    ok = ok and bool(irb) and any(isinstance(n, ast.Assign) and ast.unparse(n.targets[0]) == f'{objn}.ir'
+                                  and ast.unparse(n.value) == f'{objn}.ir.clone(body={irb[0]})' for n in ast.walk(sc.node))
     (ctx.judge('R2', 'Sourcefile.clone:ir') if ok else
      ctx.violation('R2', 'Sourcefile.clone:ir', sc.where, 'the carried-over IR of a cloned Sourcefile is not deep-copied node by node'))
-    g = X.nodes_with_guards(sc.node, lambda n: isinstance(n, ast.Assign) and ast.unparse(n.targets[0]) == 'obj.ir')
-    ok = g and all(any('ir_needs_clone' in x for x in gs) for _, gs in g)
-    need = [n for n in ast.walk(sc.node) if isinstance(n, ast.Assign) and ast.unparse(n.targets[0]) == 'ir_needs_clone']
+    g = X.nodes_with_guards(sc.node, lambda n: isinstance(n, ast.Assign) and ast.unparse(n.targets[0]) == f'{objn}.ir')
+    flags = [n.targets[0].id for n in ast.walk(sc.node) if isinstance(n, ast.Assign) and isinstance(n.targets[0], ast.Name)
+             and isinstance(n.value, ast.Constant) and isinstance(n.value.value, bool)]
+    flag = flags[0] if flags else 'ir_needs_clone'
+    ok = g and all(any(flag in x for x in gs) for _, gs in g)
+    need = [n for n in ast.walk(sc.node) if isinstance(n, ast.Assign) and ast.unparse(n.targets[0]) == flag]
     vals = sorted(ast.unparse(n.value) for n in need)
     (ctx.judge('R2', 'Sourcefile.clone:ir_needs_clone', facts={'values': vals}) if ok and vals == ['False', 'True'] else
      ctx.violation('R2', 'Sourcefile.clone:ir_needs_clone', sc.where, 'deep copy of the IR is not tied to "IR taken over from self"'))
@@ -156,12 +168,13 @@ def run(ctx):
     # ---- R3
     pc = m.get_function('loki/program_unit.py', 'ProgramUnit.clone')
     src = ast.unparse(pc.node)
+    objn = (X.names_assigned_from(pc.node, 'super().clone(') or ['obj'])[0]
     checks = {
         'rescope default': X.has(src, "kwargs.setdefault('rescope_symbols', True)"),
         'escalates to Scope.clone': X.has(src, 'obj = super().clone(**kwargs)'),
         'contained units cloned with new parent': X.has(src, "node.clone(parent=obj, rescope_symbols=kwargs['rescope_symbols'])"),
         'contained units re-parented': X.has(src, 'node._reset_parent(obj)'),
-        'registered in parent scope': src.rstrip().endswith('return obj') and X.has(src, 'obj.register_in_parent_scope()'),
+        'registered in parent scope': src.rstrip().endswith(f'return {objn}') and X.has(src, 'obj.register_in_parent_scope()'),
     }
     for k, v in checks.items():
         (ctx.judge('R3', f'ProgramUnit.clone:{k}') if v else
@@ -174,10 +187,11 @@ def run(ctx):
 
     # ---- R4
     ctx.rule('R4', 'ProgramUnit.clone: every re-parenting statement is followed by obj.rescope_symbols() under guards it implies')
+    objn = (X.names_assigned_from(pc.node, 'super().clone(') or ['obj'])[0]
     rep = X.nodes_with_guards(pc.node, lambda x: isinstance(x, ast.Call) and ((X.dotted_attr(x.func) or '').endswith('._reset_parent')
                                                                                or (isinstance(x.func, ast.Attribute) and x.func.attr == 'clone'
-                                                                                   and any(k.arg == 'parent' and ast.unparse(k.value) == 'obj' for k in x.keywords))))
-    resc = X.nodes_with_guards(pc.node, lambda x: isinstance(x, ast.Call) and X.dotted_attr(x.func) == 'obj.rescope_symbols')
+                                                                                   and any(k.arg == 'parent' and ast.unparse(k.value) == objn for k in x.keywords))))
+    resc = X.nodes_with_guards(pc.node, lambda x: isinstance(x, ast.Call) and X.dotted_attr(x.func) == f'{objn}.rescope_symbols')
     ctx.floor('R4', 're-parenting statements in ProgramUnit.clone', len(rep), 2)
     for call, guards in rep:
         later = [(c, g) for c, g in resc if c.lineno > call.lineno and all(x in guards for x in g)]
